@@ -34,6 +34,19 @@ def gen(rng, tier):
         c["rchunk"] = rng.choice([None, 1, 2, max(p, 1), p + 2])
         c["reader"] = rng.choice(["Genotypes", "GenotypesVCF"]) if not fmt.startswith(".pgen") else "GenotypesPLINK"
         c["drop_phase_plane"] = rng.random() < 0.1  # a matrix without third plane: all calls phased
+        c["stale_index"] = None
+        r = rng.random()
+        if r < 0.15 and p > 1 and fmt != ".vcf.gz+idx":
+            # records in any order: contigs interleaved, positions not sorted (an unsorted VCF cannot be indexed, but it
+            # must still come back as it was written)
+            perm = list(range(p))
+            while perm == sorted(perm):
+                rng.shuffle(perm)
+            c["variants"] = [c["variants"][j] for j in perm]
+            c["data"] = [[row[j] for j in perm] for row in c["data"]]
+        elif r < 0.3 and p > 1 and fmt in (".vcf.gz", ".bcf"):
+            # the path held an older, smaller, indexed file before: the index left beside it must not matter
+            c["stale_index"] = rng.randint(1, p - 1)
         if len(c["samples"]) > 1 and rng.random() < 0.15:
             # sample IDs that are legal but look like comment / header lines in a .psam file
             c["samples"][rng.randrange(1, len(c["samples"]))] = rng.choice(["#2", "#IID2", "#s"])
@@ -80,6 +93,16 @@ def impl(case):
     for f in _dir.glob("g.*"):
         f.unlink()
     content = dict(case)
+    if case.get("stale_index"):
+        import pysam
+
+        k = case["stale_index"]
+        older = dict(case, variants=case["variants"][:k], data=[row[:k] for row in case["data"]])
+        gtio.make_obj("GenotypesVCF", path, older).write()
+        if ext == ".bcf":
+            pysam.tabix_index(str(path), preset="bcf", force=True)  # writes g.bcf.csi
+        else:
+            pysam.tabix_index(str(path), preset="vcf", force=True)
     g = gtio.make_obj("GenotypesPLINK" if ext == ".pgen" else "GenotypesVCF", path, content, chunk_size=case["wchunk"])
     if case["drop_phase_plane"]:
         g.data = g.data[:, :, :2]
@@ -182,6 +205,11 @@ def describe(case, obs):
     tags = [case["fmt"], f"reader={case['reader']}"]
     if not case["variants"]:
         tags.append("empty-matrix")
+    if case.get("stale_index"):
+        tags.append("stale-index-of-an-older-file-beside-it")
+    key = [(v["chrom"], v["pos"]) for v in case["variants"]]
+    if key != sorted(key):
+        tags.append("records-unsorted")
     if any(c[0] == 255 or c[1] == 255 for r in case["data"] for c in r):
         tags.append("missing-calls")
     if any((c[0] == 255) != (c[1] == 255) for r in case["data"] for c in r):
